@@ -94,6 +94,17 @@ def run(e: Engine, rep: Report):
              'that message_esc_pattern (regex syntax tree) takes after its '
              'code group - a bare code would be read back as text')
     w9(e, rep)
+    rep.rule('W10', 'one wire line per line of the text: send_reply (and '
+             'its helpers) add to the line list one match of the line '
+             'pattern at a time - no extend / insert / += that could put '
+             'several wire lines in the place of one (the reader joins '
+             'wire lines with CRLF: a folded line comes back broken)')
+    w10(e, rep)
+    rep.rule('W11', 'the text goes out with the enhanced status code of '
+             'the property: the message getter takes the ESC from '
+             'self.enhanced_status_code (which ties the class digit to the '
+             'reply code, W1), never from the stored tuple self._esc')
+    w11(e, rep)
     rep.floor('W2', 4, 'framing agreement obligations')
 
 
@@ -1067,3 +1078,56 @@ def w9(e: Engine, rep: Report):
         rep.unknown('W9', where, 'rendered ESC is delimited',
                     'no return of the getter mentions the enhanced status '
                     'code', loc=getter.loc())
+
+
+# --------------------------------------------------------------------- W10
+def w10(e: Engine, rep: Report):
+    ctx = e.method_ctx(IOC, 'send_reply')
+    g = e.build(ctx, raises=lambda b, n, r: set(),
+                inline=e.inline_same_self(deny=['buffered_send']),
+                max_depth=3)
+    where = ctx.func.qname
+    rep.functions.add(where)
+    rep.evaluations += 1
+    bad = None
+    for n in g.nodes:
+        if n.kind == 'call' and isinstance(n.ast.func, ast.Attribute) and \
+                n.ast.func.attr in ('extend', 'insert') and \
+                'line' in ast.unparse(n.ast.func.value).lower():
+            bad = n
+        if n.kind == 'stmt' and isinstance(n.ast, ast.AugAssign) and \
+                'line' in ast.unparse(n.ast.target).lower() and \
+                isinstance(n.ast.target, ast.Name) and \
+                isinstance(n.ast.value, (ast.List, ast.Call, ast.Name)):
+            bad = n
+    rep.check(bad is None, 'W10', where, 'one wire line per text line',
+              '`%s` puts several wire lines where the text has one: the '
+              'reading side joins wire lines with CRLF, so the text comes '
+              'back with line breaks it never had (and a cut inside a '
+              'UTF-8 sequence makes the reply undecodable)' % (
+                  bad.text(50) if bad else ''),
+              loc=bad.loc() if bad else ctx.func.loc(),
+              reason='lines are appended one match at a time')
+
+
+# --------------------------------------------------------------------- W11
+def w11(e: Engine, rep: Report):
+    c = e.p.cls(REPLY)
+    getter = c.methods.get('message')
+    if getter is None or getter.kind != 'property':
+        rep.unknown('W11', REPLY + '.message', 'ESC through the property',
+                    'cannot read the message getter', loc=None)
+        return
+    rep.functions.add(getter.qname)
+    rep.evaluations += 1
+    direct = [x for x in walk_own(getter.node)
+              if isinstance(x, ast.Attribute) and x.attr == '_esc' and
+              isinstance(x.value, ast.Name) and x.value.id == 'self']
+    rep.check(not direct, 'W11', getter.qname,
+              'the getter takes the ESC from the property',
+              'the message getter reads self._esc itself: the class digit '
+              'stored there is the one the text arrived with, not the one '
+              'of the reply code (that substitution is made by the '
+              'enhanced_status_code property) - `550 2.3.4 ...` goes on the '
+              'wire', loc=getter.loc(direct[0]) if direct else getter.loc(),
+              reason='no direct read of self._esc')
